@@ -1,5 +1,6 @@
 import XV.Model.Chain
 import XV.Model.Ledger
+import XV.Model.Crash
 import XV.Drv.Util
 /-! line-protocol driver of the chain + ledger models (`xvdriver chain`); op language documented in go/cmd/chain -/
 namespace XV.Drv.Chain
@@ -246,6 +247,18 @@ def step (d : DS) (line : String) : DS × String :=
     | "walk" =>
       let (s', ok) := walk (verifyEnv d) d.s (ledgerH d) (arg 0) (getKV kv "prune" == "1")
       ({ d with s := s' }, if ok then "ok" else "fail")
+    | "walktrace" =>
+      -- the walk and the state after each of its atomic batches (`XV.Crash.walkTrace`)
+      let tr := XV.Crash.walkTrace (verifyEnv d) d.s (ledgerH d) (arg 0) false
+      let (s', ok) := walk (verifyEnv d) d.s (ledgerH d) (arg 0) false
+      -- block-boundary part element by element; of the re-admission part (order among independent transactions is not
+      -- fixed by the code) the number of batches and the last state
+      let mid := tr.filter (fun st => st.pool.isEmpty)
+      let rep := tr.filter (fun st => !st.pool.isEmpty)
+      let show1 := fun (st : St) => observe { d with s := st } ++ " pool=" ++ poolStr st
+      ({ d with s := s' }, (if ok then "ok" else "fail") ++ " T=" ++
+        String.intercalate " || " (mid.map show1) ++ s!" R={rep.length}:" ++
+        (match rep.getLast? with | some st => show1 st | none => "-"))
     | "reopen" => (d, "ok")
     | "obs" => (d, observe d ++ " pool=" ++ poolStr d.s)
     | "ledger" => (d, ledgerObs d)
